@@ -828,7 +828,9 @@ impl SuffixArrayBuilder {
         }
 
         if text.len() == 2 {
-            return Ok(if text[0] <= text[1] { vec![0, 1] } else { vec![1, 0] });
+            // For two equal bytes the one-byte suffix is a proper prefix of the
+            // two-byte suffix and therefore the smaller one.
+            return Ok(if text[0] < text[1] { vec![0, 1] } else { vec![1, 0] });
         }
 
         // For now, use a simple sorting approach since the full DC3 is complex
